@@ -183,6 +183,12 @@ structure PopOK (cfg : Cfg) (E : Model.Convert.Ext) (N : Nat) (m : Bytes) (chf :
   hamf : ∀ j, j < N → (chf j).amfUeNgapId < 2 ^ 40
   hgtp : cls E .ip (.str cfg.gnbGtp) = 2
 
+/-- the hypotheses are satisfiable: the configuration of the recorded registration (IMSI 59903000000006, gNB GTP address
+    48.53.100.89) with a population of 5 and any choices with AMF-UE-NGAP-IDs below 2^40 -/
+example : PopOK Proofs.EmulatorWitness.reg1Cfg Model.NetExt.goExt 5 [0x95, 0xf9, 0x30] (fun j => ⟨[], [], [], 0, 2 ^ 40 - 1 - j, [], 0, []⟩) :=
+  ⟨⟨by decide, by decide, by decide⟩, by decide, by unfold Proofs.UeIdentity.Fits; decide, rfl,
+   fun j _ => by show 2 ^ 40 - 1 - j < 2 ^ 40; omega, by decide +kernel⟩
+
 theorem PopOK.fitj {cfg : Cfg} {E : Model.Convert.Ext} {N : Nat} {m : Bytes} {chf : Nat → Spec.Amf.Choice} (h : PopOK cfg E N m chf)
     (j : Nat) (hj : j < N) : Model.UeIdentity.decVal cfg.imsi + j < 10 ^ cfg.imsi.length := by
   have := h.hfit; unfold Proofs.UeIdentity.Fits at this; omega
